@@ -412,7 +412,7 @@ def engine_b(c, rng):
         # source further files, every one of them naming this very file: they are ignored, the documented keys still apply
         cfgfile = os.path.join(t.root, "rws.config.toml")
         words = ["include", "includes", "import", "imports", "extends", "extend", "inherit", "inherits", "base", "parent", "source", "load", "use", "config", "config_file", "file", "path", "template", "profile", "defaults", "overrides"]
-        body = "".join('%s = "rws.config.toml"\n' % w for w in words[:11]) + "".join('%s = ["rws.config.toml", "./rws.config.toml"]\n' % w for w in words[11:]) + "thread_count = 3\n\n[cors]\nallow_all = false\nallow_origins = [\"https://self.example\"]\n" + "".join('%s = "rws.config.toml"\n' % w for w in words[:6])
+        body = "".join('%s = "rws.config.toml"\n' % w for w in words[:11]) + "".join('%s = ["rws.config.toml", "./rws.config.toml"]\n' % w for w in words[11:]) + 'note = "${VF_LEGACY_WORD} and ${HOME} and $USER and %PATH% and ~/x"\ncomment = "$(hostname) `id`"\n' + "thread_count = 3\n\n[cors]\nallow_all = false\nallow_origins = [\"https://self.example\"]\n" + "".join('%s = "rws.config.toml"\n' % w for w in words[:6])
         open(cfgfile, "w").write(body)
         prt = server.free_port()
         srv = server.Server(t.root, threads=3, args=["--ip=127.0.0.1", "--port=%d" % prt], use_default_args=False, port=prt)
